@@ -184,7 +184,8 @@ func (e *Emulator) evalRegsFully(ex expr.Expr, s *Step) expr.Expr {
 // memory storage.
 func (e *Emulator) memValue(key expr.Key, addr model.Addr, w expr.Width) expr.Const {
 	if val, ok := e.State.Mems.Load(key, addr, w); ok {
-		return val.(expr.Const)
+		// Value composed of multiple writes is an expression of constants.
+		return exprtransform.ConstFold(val).(expr.Const)
 	}
 
 	for _, intv := range e.State.Mems.Missing(key, addr, w).Intervals() {
@@ -208,7 +209,7 @@ func (e *Emulator) memValue(key expr.Key, addr model.Addr, w expr.Width) expr.Co
 			w, addr))
 	}
 
-	return val.(expr.Const)
+	return exprtransform.ConstFold(val).(expr.Const)
 }
 
 func (e *Emulator) evalMemoryFully(ex expr.Expr, s *Step) expr.Expr {
